@@ -178,19 +178,31 @@ def r5_label_and_value(rep, ctx, RID="C03.R5"):
                   "an entry's unit label is rewritten to the reference unit on a path of the same iteration that does not convert the value (conversion skipped, cached or deferred): the label changes but the amount does not", node=rw, fn=fn,
                   facts={"entry": fn.qual, "offending_exit": "rewrite at line %d" % rw.lineno})
     # each conversion uses this entry's unit -> the reference unit of its quantity type, on its own side's value
+    from ..facts import facts as nfacts
+    unit_terms = set()
+    for st in own_statements(fn.node):
+        if isinstance(st, ast.Assign) and isinstance(st.targets[0], ast.Tuple) and len(st.targets[0].elts) == 2 and isinstance(st.value, ast.Name):
+            unit_terms.add(res.term(st.targets[0].elts[0]))
     for st in conv_assigns:
-        c = st.value
-        args = [res.term(a) for a in c.args]
+        t = res.term(st.value)
         side = st.targets[0].id
-        ok = len(args) == 4 and args[3] in (("param", fn.params.index(side), side),) or (len(args) == 4 and any(x == ("param", fn.params.index(side), side) for x in alternatives(args[3])))
-        unit_from = ast.unparse(c.args[1]) if len(c.args) > 1 else None
-        unit_to = ast.unparse(c.args[2]) if len(c.args) > 2 else None
-        ok = ok and unit_from == "unit" and unit_to == "used_unit_for_quantity_type"
-        # guarded by the side test
-        par = st._parent
-        side_ok = isinstance(par, ast.If) and isinstance(par.test, ast.Compare) and isinstance(par.test.ops[0], ast.Is) and ((side == fn.params[3]) == ((st in par.body) == (ast.unparse(par.test.comparators[0]) == fn.params[1])))
-        rep.check(ok and side_ok, RID, "_MatchQuantities:%s" % norm(ast.unparse(st))[:70], "%s is converted from the entry's unit to the reference unit, in the arm of its own map" % side,
-                  "`%s` does not convert %s from the entry's unit to the reference unit in the arm of its own map" % (norm(ast.unparse(st)), side), node=st, fn=fn)
+        args = list(t[2]) if t[0] == "call" else []
+        val_ok = len(args) == 4 and any(x == ("param", fn.params.index(side), side) for x in alternatives(args[3]))
+        from_ok = len(args) == 4 and args[1] in unit_terms
+        to_ok = len(args) == 4 and args[2] != args[1] and any(x[0] == "call" and x[1][0] == "attr" and x[1][2] == "get" for x in alternatives(args[2]))
+        # in the arm of its own map: a dominating `c is <map of that side>` fact
+        want_map = fn.params[1] if side == fn.params[3] else fn.params[2]
+        other_map = fn.params[2] if side == fn.params[3] else fn.params[1]
+        side_ok = False
+        for k, l_, r_, pos in nfacts(cfg, cfg.node_of(st)):
+            if k == "is" and l_ is not None and r_ is not None:
+                names_ = {ast.unparse(l_), ast.unparse(r_)}
+                if want_map in names_ and pos:
+                    side_ok = True
+                if other_map in names_ and not pos:
+                    side_ok = True
+        rep.check(val_ok and from_ok and to_ok and side_ok, RID, "_MatchQuantities:convert:%s" % side, "%s is converted from the entry's unit to the reference unit, in the arm of its own map" % side,
+                  "`%s` does not convert %s from the entry's unit to the reference unit in the arm of its own map (value %s, from %s, to %s, arm %s)" % (norm(ast.unparse(st)), side, val_ok, from_ok, to_ok, side_ok), node=st, fn=fn)
     rep.floor(RID, "value conversions in unit matching", len(conv_assigns), 2)
     # the reference unit is the first unit seen of the quantity type
     firsts = [st for st in own_statements(fn.node) if isinstance(st, ast.Assign) and isinstance(st.targets[0], ast.Subscript) and "quantity_types_found_to_used_unit" in ast.unparse(st.targets[0])]
